@@ -644,7 +644,8 @@ def _expand_chunk(args):
 
 def level_bfs(pool, seed, depth, horizon, chunk=96):
     m = _model_a(seed, horizon)
-    alpha = m.alpha
+    alpha = m.alpha                                    # order permuted by the seed
+    base = {ev: i for i, ev in enumerate(alphabet())}  # seed-independent rank of an event
     k0 = X._h(m.canon(m.init()))
     seen = {k0}
     frontier = [((), None)]
@@ -653,22 +654,28 @@ def level_bfs(pool, seed, depth, horizon, chunk=96):
     outcomes = set()
     per_depth = {0: 1}
     samples = []
+    rank = lambda hist: tuple(base[e] for e in hist)   # noqa: E731
     for d in range(depth + 1):
         expand = d < depth
         items = [(i, h, k) for i, (h, k) in enumerate(frontier)]
         jobs = [(seed, horizon, expand, items[i:i + chunk]) for i in range(0, len(items), chunk)]
-        nxt = []
-        for succ, outc, st, ag in pool.imap(_expand_chunk, jobs):      # ordered: the kept history per state is deterministic
+        best = {}
+        for succ, outc, st, ag in pool.imap(_expand_chunk, jobs):
             stats.update(st)
             Aggregator.merge(agg, ag)
             outcomes |= outc
             for idx, ei, k in succ:
                 if k in seen:
                     continue
-                seen.add(k)
-                nxt.append((frontier[idx][0] + (alpha[ei],), k))
+                h = frontier[idx][0] + (alpha[ei],)
+                # representative history of a new state = the smallest one in the seed-independent event order, so
+                # that everything reported (histories, case counts) is independent of VERIF_SEED
+                if k not in best or rank(h) < rank(best[k]):
+                    best[k] = h
         if not expand:
             break
+        seen.update(best)
+        nxt = sorted(((h, k) for k, h in best.items()), key=lambda t: rank(t[0]))
         per_depth[d + 1] = len(nxt)
         if nxt and len(samples) < 3 and d + 1 >= 3:
             samples.append([list(e) for e in nxt[len(nxt) // 2][0]])
@@ -954,9 +961,8 @@ class LoopModel:
         post_state = m.state.name
         # the received VAM is reflected in the peer's manager ("drives the peer's state machine")
         nv = internal(m, "_nearby_vrus").get(sm["sid"])
-        if pre_state != "VRU_IDLE" or True:
-            if nv is None or nv.last_seen != w.now:
-                w.bad.append(dict(kind="rx_not_reflected", what="nearby_vru", receiver=dst, has_info=sm["info"] is not None, _cut=True))
+        if nv is None or nv.last_seen != w.now:
+            w.bad.append(dict(kind="rx_not_reflected", what="nearby_vru", receiver=dst, has_info=sm["info"] is not None, _cut=True))
         if sm["info"] is not None:
             nc = internal(m, "_nearby_clusters").get(sm["info"][0])
             if nc is None or nc.last_seen != w.now or nc.leader_station_id != sm["sid"]:
@@ -1197,6 +1203,7 @@ def run(ctx):
             for rec, where in out:
                 rec["part"] = "B:sweep"
                 ctx.violation(rec, replay=dict(part="B:sweep", sweep=where))
+    digests.sort()
     digests.insert(0, ("A", tot.digest()))
     n_alpha = len(alphabet())
     ctx.parts["A"] = dict(states=tot.states, transitions=tot.transitions, max_depth=tot.max_depth, depth_bound=depth,
